@@ -59,6 +59,8 @@ pub fn revealed_bits(case: &MpcCase, res: &RunResult<Vec<bool>>, p: usize) -> Re
 
 #[derive(Clone, Debug, Serialize, Deserialize)]
 pub enum Case {
+    /// linear leakage test on one execution
+    Linear { seed: u64 },
     /// N runs with every input bit = value; counts ones per (party, wire)
     Balance { n: usize, value: bool, runs: usize, chunk: usize },
     Canary { n: usize, seed: u64 },
@@ -142,6 +144,10 @@ fn test_case(c: &Case, sh: &Shared) -> Result<CaseInfo, Fail> {
             }
             Ok(CaseInfo { extra_runs: *runs as u64 - 1, classes: vec![format!("balance:n={n}")], ..Default::default() })
         }
+        Case::Linear { seed } => match crate::checks::c06lin::test_once(*seed) {
+            Ok(d) => Ok(CaseInfo { nontrivial: Some(hash_of(&(*seed, 77u8))), classes: vec!["linear-leakage".into()], sample: Some(json!({"linear_leakage_test": d})), ..Default::default() }),
+            Err(f) => Err(f),
+        },
         Case::Canary { n, seed } => {
             let mut m = Mix(*seed);
             let inputs: Vec<Vec<bool>> = (0..*n).map(|_| (0..128).map(|_| m.next() & 1 == 1).collect()).collect();
@@ -202,7 +208,7 @@ fn note_deltas(res: &RunResult<Vec<bool>>, sh: &Shared) -> Result<(), Fail> {
 pub fn run(tier: Tier, seed: u64) -> i32 {
     let ctx = Ctx::new("C06", tier, seed, "exploration");
     let big_n = tier.pick(400usize, 4000);
-    ctx.set_rule(&format!("repeated executions (the engine's own coins are the random variable): (i) balance - n in {{2,3}}, 136 input bits per party (wire indices 0..407, i.e. every position of the 64/128-bit words in which the preprocessing bit strings are handled), every input fixed to 0 for N={big_n} runs and to 1 for N runs; from the transcript only, b = masked_input[w] XOR (shares the others sent to the owner) = x_w XOR r_P[w]; per (n, party, wire, value) cell the number of ones must lie within 6.5 sigma of N/2 (two-sided tail 8e-11 per cell, 1360 cells => < 1.1e-7 per run); (ii) canary - 128 random input bits per party: neither they nor their complement occur in any message the party sends, as packed bit stream (both bit orders, both wire orders, every bit offset) or as 0/1 bytes at any offset and stride 1..40; (iii) no own mask share of a non-output register in the share messages of the output phase; (iv) uniqueness of every global key (probe) and every 128-bit mask vector over all parties and executions. non-trivial = a balance cell with N complete runs / a canary execution; evaluations counts engine executions"));
+    ctx.set_rule(&format!("repeated executions (the engine's own coins are the random variable): (i) balance - n in {{2,3}}, 136 input bits per party (wire indices 0..407, i.e. every position of the 64/128-bit words in which the preprocessing bit strings are handled), every input fixed to 0 for N={big_n} runs and to 1 for N runs; from the transcript only, b = masked_input[w] XOR (shares the others sent to the owner) = x_w XOR r_P[w]; per (n, party, wire, value) cell the number of ones must lie within 6.5 sigma of N/2 (two-sided tail 8e-11 per cell, 1360 cells => < 1.1e-7 per run); (ii) canary - 128 random input bits per party: neither they nor their complement occur in any message the party sends, as packed bit stream (both bit orders, both wire orders, every bit offset) or as 0/1 bytes at any offset and stride 1..40; (iii) no own mask share of a non-output register in the share messages of the output phase; (iv) linear leakage test: the KOS check value, aBit test bits and opened aShare bits of a party (with the public coins recomputed from the openings on the wire) must not determine its private bit string under the hypothesis of constant blinding bits; (v) uniqueness of every global key (probe) and every 128-bit mask vector over all parties and executions. non-trivial = a balance cell with N complete runs / a canary execution; evaluations counts engine executions"));
     ctx.assume("statistical: detects a constant or grossly biased mask, reuse and plain leakage; not cryptographic weakness of the generator");
     let sh = Shared { deltas: Default::default(), delta_count: Default::default(), masks: Default::default(), mask_count: Default::default(), counts: Default::default() };
     let chunk = 25;
@@ -216,6 +222,9 @@ pub fn run(tier: Tier, seed: u64) -> i32 {
     }
     for k in 0..tier.pick(12u64, 100) {
         cases.push(Case::Canary { n: 2 + (k % 2) as usize, seed: seed.wrapping_mul(1000).wrapping_add(k) });
+    }
+    for k in 0..tier.pick(8u64, 64) {
+        cases.push(Case::Linear { seed: seed.wrapping_mul(7777).wrapping_add(k * 131) });
     }
     enumerate(&ctx, &cases, |c| match test_case(c, &sh) {
         Err(f) if f.signature == "INFRA" => {
